@@ -90,7 +90,7 @@ Section Run.
   Definition cache_agrees (c : cache) (es : list centry) : bool :=
     forallb (fun e => match e with (k, p, l, v) =>
                match clookup c (k, p, l) with Some v' => otree_eqb v v' | None => false end end) es &&
-    forallb (fun kv => existsb (fun e => match e with (k, p, l, _) => ckey_eqb (fst kv) (k, p, l) end) es) c.
+    forallb (fun kv => existsb (fun e => match e with (k, p, l, _) => ckey_eqb (fst kv) (k, p, l) end) es) (cache_entries c).
 End Run.
 
 (* one generated model: the constructor raised, or the levels run; [es] the
